@@ -57,7 +57,7 @@ class InfoFilePersister:
                                                            name_too_long)
             trashinfo_path = os.path.join(data.info_dir_path,
                                           trashinfo_basename)
-            if os.path.exists(path_of_backup_copy(trashinfo_path)):
+            if _is_taken(path_of_backup_copy(trashinfo_path)):
                 index += 1
                 continue
             try:
@@ -77,6 +77,18 @@ class InfoFilePersister:
                                         "attempt for creating %s failed." % trashinfo_path)
 
             index += 1
+
+
+def _is_taken(path):
+    # os.path.exists() answers False for a dangling symbolic link and for
+    # every error; only "nothing has that name" may mean the name is free
+    try:
+        os.lstat(path)
+    except OSError as e:
+        if e.errno in (errno.ENOENT, errno.ENOTDIR, errno.ENAMETOOLONG):
+            return False
+        raise
+    return True
 
 
 def create_trashinfo_basename(basename, suffix, name_too_long):
